@@ -475,6 +475,30 @@ func c07(c *Ctx) {
 			}
 			c.requireCross(site(s)+" automatic-only", s, auto, "compositionUpdatePolicy == Automatic")
 		}
+		// ... and it does flow: under Automatic the claim's revision reference is
+		// overwritten with the XR's, explicitly (a non-overriding merge would only
+		// ever deliver the first revision)
+		flows := false
+		for _, s := range methodCallOn(fn, "claim.Unstructured).SetCompositionRevisionReference", cm) {
+			if flow.Default.Any(cfgx.CallArgs(s)[0], func(v ssa.Value) bool { return hasSuffixCall(v, "composite.Unstructured).GetCompositionRevisionReference") }) {
+				flows = true
+			}
+		}
+		c.R.Check(flows, load.FuncName(fn)+": revision follows the XR under Automatic", c.pos(fn.Pos()), "cm.SetCompositionRevisionReference(xr.GetCompositionRevisionReference())", "the XR's composition revision is never written to the claim: under the Automatic policy the claim keeps the first revision it saw")
+		// the XR-owned key table is only ever narrowed for the Manual direction:
+		// no entry is deleted from a GetPropFields/field table on an Automatic edge
+		for _, d := range calls(fn, "builtin.delete") {
+			var auto []cfgx.Edge
+			for _, cf := range findCmps(fn, true, func(x, y ssa.Value) bool { cs, ok := cfgx.ConstString(y); return ok && cs == "Automatic" }) {
+				auto = append(auto, cf.Holds...)
+			}
+			if len(auto) == 0 {
+				continue
+			}
+			r, w := cfgx.ReachableFromEdges(auto, d, nil, c.posf())
+			onlyAuto, _ := cfgx.MustCross(d, auto, nil)
+			c.R.Check(!(r && onlyAuto), site(d)+" no-table-narrowing-under-automatic", c.pos(d.Pos()), "no filter-table entry is removed specifically under the Automatic policy", "under Automatic a key is removed from a filter table: the XR's value then reaches the claim only through the non-overriding merge", w...)
+		}
 	}
 
 	c.R.Rule("R7.6", "no bulk XR-spec → claim-spec flow", 1,
